@@ -1,7 +1,7 @@
 (* C12 — recovery parsing terminates, agrees with strict parsing, loses no good statement.
    Model: Model/Loops.v [recover] (parseWithRecovery with its forced advance and synchronize), parametric in the
    statement parser; the hypotheses on [ps] are measured on the real parseStatement for every recorded table. *)
-From Coq Require Import List Arith Bool.
+From Coq Require Import List Arith Bool NArith.
 From GV Require Import Model.Loops Proofs.LoopsP.
 Import ListNotations.
 
@@ -11,30 +11,43 @@ Theorem C12_recovery_terminates :
   forall tree ntok is_eof is_semi starts_stmt ps,
     (forall p t p', ps p = SOk t p' -> p < p') ->
     (forall p c p', ps p = SErr c p' -> p <= p') ->
-    forall fuel pos acc errs, ntok - pos < fuel ->
-      recover tree ntok is_eof is_semi starts_stmt ps fuel pos acc errs <> RFuel.
+    forall fuel pos acc errs u, ntok - pos < fuel ->
+      recover tree ntok is_eof is_semi starts_stmt ps fuel pos acc errs u <> RFuel.
 Proof. exact recover_fuel. Qed.
 
 (* at least one error exactly when strict parsing fails *)
 Theorem C12_errors_iff_strict_fails :
   forall tree ntok is_eof is_semi starts_stmt ps fuel ts es,
-    recover tree ntok is_eof is_semi starts_stmt ps fuel 0 [] [] = ROk ts es ->
+    recover tree ntok is_eof is_semi starts_stmt ps fuel 0 [] [] None = ROk ts es ->
     parse tree ntok is_eof is_semi ps false fuel 0 [] <> PFuel ->
     (forall c, parse tree ntok is_eof is_semi ps false fuel 0 [] = PErr c -> c <> E_EMPTY) ->
     (es <> [] <-> exists c, parse tree ntok is_eof is_semi ps false fuel 0 [] = PErr c).
 Proof. exact recovery_iff_strict. Qed.
 
 (* semicolon-separated statements: precisely the trees of the well-formed ones, in order, and one error per
-   malformed one, each located at the first token of its own statement *)
+   malformed one, each located at a token of its own statement.  [segs] describes the segments as the property does:
+   a well-formed segment parses to exactly its terminator (segs_good); a malformed one either fails outright without
+   passing its terminator (segs_bad) or begins with a complete statement that is followed, inside the segment, by a
+   token that cannot start a statement (segs_bad_prefix: no tree is returned for that prefix); no statement-starting
+   keyword lies between the failure point and the terminator. *)
 Theorem C12_recovery_segments :
   forall tree ntok is_eof is_semi starts_stmt ps,
     (forall p t p', ps p = SOk t p' -> p < p') ->
     (forall p c p', ps p = SErr c p' -> p <= p') ->
-    forall l pos, segs tree ntok is_eof is_semi starts_stmt ps pos l ->
-    forall fuel acc errs, ntok - pos < fuel ->
-      recover tree ntok is_eof is_semi starts_stmt ps fuel pos acc errs
-      = ROk (acc ++ goods tree l) (errs ++ bads tree l).
+    forall l, segs tree ntok is_eof is_semi starts_stmt ps 0 l ->
+    forall fuel, ntok + length l < fuel ->
+      recover tree ntok is_eof is_semi starts_stmt ps fuel 0 [] [] None
+      = ROk (goods tree l) (bads tree l).
 Proof. exact recovery_segments. Qed.
+
+(* non-vacuity: tokens  K . S K . . . S K . E : statement, ';', a statement whose well-formed prefix [K .] is followed
+   by two stray tokens, ';', statement.  Recovery returns the first and the third tree and one error at token 5. *)
+Example C12_segments_example :
+  let kinds := [3; 0; 2; 3; 0; 0; 0; 2; 3; 0; 1] in
+  let tbl := [SOk 100 2; SErr 1%N 1; SErr 1%N 2; SOk 200 5; SErr 1%N 4; SErr 7%N 5; SErr 1%N 6; SErr 1%N 7;
+              SOk 300 10; SErr 1%N 9; SErr 1%N 10] in
+  run_recover kinds tbl = ROk [100; 300] [(5, 7%N)] /\ run_parse false kinds tbl = PErr 7%N.
+Proof. vm_compute. split; reflexivity. Qed.
 
 Print Assumptions C12_recovery_terminates.
 Print Assumptions C12_errors_iff_strict_fails.
